@@ -43,6 +43,9 @@ func calleeName(c *ssa.CallCommon, fnv Val) string {
 	if fnv.Fn != nil {
 		return fnv.Fn.String()
 	}
+	if isCancelFuncType(c.Value.Type()) {
+		return "cancelfn"
+	}
 	if fnv.Origin != "" {
 		return "fnfield:" + fnv.Origin
 	}
@@ -430,6 +433,10 @@ func (ex *Exec) contractCall(st *State, fr *Frame, instr ssa.Instruction, fn *ss
 	}
 	ret := ex.symVal(st, resT, "ret."+shortName(key))
 	pf.results = ret
+	for _, c := range sp.Defines {
+		st.assume(ex.evalClause(st, pf, c, nil))
+		ex.use("definitional provenance predicate: " + key + ": " + c.Text)
+	}
 	open := ex.openFindings
 	for _, c := range sp.Ensures {
 		if open != nil && open[key+"/"+c.name()] {
